@@ -10,7 +10,9 @@ var _html5entitiesOnce sync.Once
 var _html5entitiesMap map[string]*HTML5Entity
 
 func buildHTML5Entities() {
+	simPoint("entities.init.enter", &_html5entitiesOnce)
 	_html5entitiesOnce.Do(func() {
+		simPoint("entities.init.begin", &_html5entitiesOnce)
 		entities := make([]HTML5Entity, _html5entitiesLength)
 		_html5entitiesMap = make(map[string]*HTML5Entity, _html5entitiesLength)
 
@@ -29,7 +31,9 @@ func buildHTML5Entities() {
 			cName = tName
 			cCharacters = tCharacters
 		}
+		simPoint("entities.init.end", &_html5entitiesOnce)
 	})
+	simPoint("entities.init.done", &_html5entitiesOnce)
 }
 
 // HTML5Entity struct represents HTML5 entitites.
